@@ -855,8 +855,10 @@ void a_complex_acosh_(a_complex *ctx)
 #elif defined(A_HAVE_CACOSH)
     *ctx = A_REAL_F(cacosh)(*ctx);
 #else /* !A_HAVE_CACOSH */
+    a_real const imag = ctx->imag;
     a_complex_acos_(ctx);
-    a_complex_mul_imag_(ctx, ctx->imag > 0 ? -1 : +1);
+    /* the imaginary part of acos underflows to zero for arguments very close to the real axis: the side is then the argument's */
+    a_complex_mul_imag_(ctx, (ctx->imag > 0 || (ctx->imag == 0 && imag < 0)) ? -1 : +1);
 #endif /* A_HAVE_CACOSH */
 }
 
